@@ -106,6 +106,14 @@ def check(run):
         if name in ('p0', 'ps0'):
             continue
         K.kernel_form(run, repo, rel, name, shape, ops, kind)
+    # the product dunders reach the branch written for the operand's class and leave their operands alone
+    from ..rules import dispatch, effect
+    eff_ = K.effects_of(repo)
+    for rel in (K.PY_P, K.TC_P):
+        for q in ('Pauli.__matmul__', 'PauliPolynomial.__matmul__'):
+            fm = repo.func(rel, q)
+            dispatch.check_function(run, repo, fm)
+            effect.check_pure(run, eff_, fm)
     # product sites
     for rel in (K.PY_P, K.TC_P):
         f = repo.func(rel, 'Pauli.__matmul__')
@@ -146,7 +154,7 @@ def check(run):
                repo.func(K.TC_P, 'Pauli.__matmul__'), repo.func(K.TC_P, 'PauliPolynomial.__matmul__')]
     entries += [repo.func(rel, n) for rel, n, *_ in K.KERNELS]
     resolve.check_cone(run, repo, entries, 'products')
-    run.floor('R8', 9)
+    run.floor('R8', 9, exact=True)
     run.floor('R6.product', 4)
     run.floor('R7a', 4)
     run.floor('R7c', 4)
